@@ -20,6 +20,7 @@
 -/
 import Theorems.C03
 import Theorems.Lemmas.CodecDec
+import Theorems.Lazy
 
 namespace Amqp.Codec
 open Amqp.Gen.Codes
